@@ -331,9 +331,16 @@ POOL = [
     ("Sum", T(CSE(("Sum", T(X, C(2)))), CSE(("Sum", T(X, C(2)))))),
     ("Sum", T(CSE(("Sum", T(Z, C(5)))), CSE(("Product", T(Y, C(2))), "p"))),
 ]
+# expressions CCodeMapper cannot render (a None leaf): the call must fail every time and leave the
+# mapper's tables consistent
+BAD = [
+    CSE(("Sum", T(X, ("none",))), "b"),
+    ("Sum", T(CSE(("Sum", T(X, C(1)))), CSE(("Product", T(Y, ("none",)))))),
+]
 N_MAPPERS = 2
 OPS = ([("map", m, i) for m in range(N_MAPPERS) for i in range(len(POOL))]
-       + [("copy", 0), ("copy_mapped", 0)])
+       + [("mapbad", m, i) for m in range(N_MAPPERS) for i in range(len(BAD))]
+       + [("copy", 0), ("copy_mapped", 0), ("copy_list", "empty"), ("copy_list", "first")])
 EXT = ("_cse_ext", "42")
 _IDENT = re.compile(r"[A-Za-z_][A-Za-z_0-9]*")
 
@@ -360,16 +367,56 @@ def run_history(hist):
             if mappers[mi] is None:
                 return ("invalid", step, "mapper does not exist yet"), outputs, None
             spec = POOL[op[2]]
-            text = mappers[mi](build(spec), PREC_NONE)
-            seen[mi] |= wrapped_children(spec)
+            try:
+                text = mappers[mi](build(spec), PREC_NONE)
+            except RecursionError:
+                raise
+            except Exception as e:  # noqa: BLE001
+                return ((f"map-raises:{type(e).__name__}", step,
+                         f"mapper {mi}: mapping {show(spec)} raised {e!r} (name list "
+                         f"{mappers[mi].cse_name_list})"), outputs, mappers[mi])
+            if seen[mi] is not None:
+                seen[mi] |= wrapped_children(spec)
             outputs.append((op[2], text, list(mappers[mi].cse_name_list)))
             last_text = text
+        elif op[0] == "mapbad":
+            mi = op[1]
+            if mappers[mi] is None:
+                return ("invalid", step, "mapper does not exist yet"), outputs, None
+            spec = BAD[op[2]]
+            try:
+                last_text = mappers[mi](build(spec), PREC_NONE)
+            except RecursionError:
+                raise
+            except Exception:  # noqa: BLE001
+                last_text = None
+            if last_text is not None:
+                return (("bad-expression-accepted", step,
+                         f"mapper {mi}: {show(spec)} has a leaf without a C rendering, but the "
+                         f"call returned '{last_text}' (name list {mappers[mi].cse_name_list})"),
+                        outputs, mappers[mi])
+            # wrappers whose child was rendered completely before the failure are assigned
+            done = {n_t[1] for n_t in mappers[mi].cse_name_list}
+            if seen[mi] is not None:
+                for ch in wrapped_children(spec):
+                    if not any(c == ("none",) for c in walk(ch)):
+                        try:
+                            if CCodeMapper()(build(ch), PREC_NONE) in done:
+                                seen[mi] |= {ch}
+                        except Exception:  # noqa: BLE001
+                            pass
+        elif op[0] == "copy_list":
+            # an explicit name list: the copy starts from THAT list, and only knows the wrappers
+            # whose names are in it
+            keep = [] if op[1] == "empty" else list(mappers[0].cse_name_list[:1])
+            mappers[1] = mappers[0].copy(keep)
+            seen[1] = set() if not keep else None     # None: which children survive is not modelled
         elif op[0] == "copy":
             mappers[1] = mappers[0].copy()
-            seen[1] = set(seen[0])
+            seen[1] = set(seen[0]) if seen[0] is not None else None
         else:
             mappers[1] = mappers[0].copy_with_mapped_cses([(f"{EXT[0]}{ext}", EXT[1])])
-            seen[1] = set(seen[0])
+            seen[1] = set(seen[0]) if seen[0] is not None else None
             ext += 1
         for mi, m in enumerate(mappers):
             if m is None:
@@ -396,7 +443,7 @@ def run_history(hist):
                         return (("unassigned-name", step,
                                  f"mapper {mi}: {ident} in returned text '{last_text}' is never "
                                  "assigned"), outputs, m)
-            if len(own) != len(seen[mi]):
+            if seen[mi] is not None and len(own) != len(seen[mi]):
                 return (("assignment-count", step,
                          f"mapper {mi}: {len(seen[mi])} distinct wrapped children mapped so far "
                          f"but {len(own)} assignments: {m.cse_name_list}"), outputs, m)
@@ -416,12 +463,15 @@ class C14(Check):
     rule = ("Engine A: every constructor shape of the C-expressible integer fragment (sums, "
             "products, // %, powers 0..3 and pow(), shifts, bitwise, comparisons, logical, "
             "conditional, min/max, abs, CSE with/without prefix) with every leaf combination, every "
-            "(parent, position, child) nesting, three-level chains over 15 shapes, and the "
+            "(parent, position, child) nesting, three-level chains over 15 shapes, (grandparent, "
+            "position) x binary parent with both operands composite over 6 / 11 shapes, and the "
             "floating fragment (quotient, powers, non-integer constants) -- each compiled by gcc "
             "and run on every in-range environment of {0,1,2,3,5}^vars ({0.5,1,2.5,4}^vars). "
             "Engine B: every history up to the depth bound over {map one of 8 expressions with "
-            "shared/fresh/nested/prefixed wrappers on the original mapper or on its copy, copy(), "
-            "copy_with_mapped_cses()}; invariants of BOTH mappers after every transition, programs "
+            "shared/fresh/nested/prefixed wrappers on the original mapper or on its copy, map one "
+            "of 2 expressions with an unrenderable leaf (must fail every time and leave the tables "
+            "consistent), copy(), copy_with_mapped_cses(), copy(<empty list>), copy(<first name "
+            "only>)}; invariants of BOTH mappers after every transition, programs "
             "of all histories of length 3 compiled and run. Non-trivial = "
             "at least one in-range environment; distinct = distinct trees / histories.")
     assumptions = [
@@ -457,6 +507,7 @@ class C14(Check):
             ("flt-nest2", lambda: batches("f", (s for _, s in
                                                 gen.nest2(FLT_CTORS, FLT_CTORS, FFILL)))),
             ("int-negsums", lambda: batches("i", self.gen_negsums())),
+            ("int-bushy", lambda: batches("i", self.gen_bushy(tier))),
             ("int-hash-twins", lambda: batches("i", (
                 s for s in gen.twin_trees([(C(-1), C(-2)), (C(0), C(5)), (C(1), C(2))])
                 if s[0] != "tuple"))),
@@ -466,6 +517,26 @@ class C14(Check):
             fams.append(("int-nest3", lambda: batches("i", (
                 s for _, s in gen.nest3(INT_REDUCED, INT_REDUCED, INT_REDUCED, FILL)))))
         return fams
+
+    BUSHY_Q = ("Sum2", "Product2", "FloorDiv", "Remainder", "If", "BitwiseAnd2")
+    BUSHY_T = ("Sum2", "Product2", "FloorDiv", "Remainder", "If", "BitwiseAnd2", "LeftShift",
+               "Cmp<", "LogicalAnd2", "Min2", "CSE")
+
+    def gen_bushy(self, tier):
+        """(grandparent, position) x binary parent whose BOTH operands are composite: the text of
+        the middle node begins and ends with a parenthesis that does not enclose it as a whole."""
+        names = self.BUSHY_Q if tier == "quick" else self.BUSHY_T
+        cs = [c for c in INT_CTORS if c.name in names]
+        binary = [c for c in cs if c.slots in (("e", "e"), ("b", "b"))]
+        kids = [c(*gen.fill_slots(c, FILL, i)) for i, c in enumerate(cs)]
+        for gp in cs:
+            for pos in range(len(gp.slots)):
+                for par in binary:
+                    for k1 in kids:
+                        for k2 in kids:
+                            ch = gen.fill_slots(gp, FILL, 2)
+                            ch[pos] = par(k1, k2)
+                            yield gp(*ch)
 
     def gen_negsums(self):
         """Sums whose terms are (partly or all) products with a leading -1 -- the printer turns
